@@ -109,7 +109,9 @@ def gen_int_unit(rng):
     return {"kind": "int", "xs": xs, "template": t, "style": rng.randrange(len(STYLES)), "seed": rng.getrandbits(16)}
 
 
-INT_EDGES = [2 ** 63, 2 ** 63 - 1, -(2 ** 63), -(2 ** 63) - 1, 2 ** 64, 2 ** 64 - 1, 2 ** 31, -(2 ** 31), 2 ** 53, 2 ** 53 + 1, -(2 ** 53) - 1,
+# plain integers with sixteen and more trailing zeros (a normal form switches to exponent notation somewhere there)
+INT_EDGES_Z = [10 ** 15, 10 ** 16, 10 ** 17, 2 * 10 ** 17, 123 * 10 ** 16, -(10 ** 18), 10 ** 18, 5 * 10 ** 16, -(2 * 10 ** 17), 10 ** 20, 10 ** 30]
+INT_EDGES = INT_EDGES_Z + [2 ** 63, 2 ** 63 - 1, -(2 ** 63), -(2 ** 63) - 1, 2 ** 64, 2 ** 64 - 1, 2 ** 31, -(2 ** 31), 2 ** 53, 2 ** 53 + 1, -(2 ** 53) - 1,
              2 ** 32, 10 ** 19, -(10 ** 19), 2 ** 127, -(2 ** 127), 0]
 
 
@@ -186,8 +188,46 @@ def gen_nas_unit(rng):
             "wrap": rng.choice((0, 0, 1, 2, 3, 4))}
 
 
+# integers of the 64-bit ranges written the way a double is written (fraction, exponent): still those integers
+DSPELT = [("1e19", 10 ** 19), ("9223372036854775808.0", 2 ** 63), ("12E18", 12 * 10 ** 18), ("1.8446744073709549568e19", 18446744073709549568),
+          ("9.223372036854775808e18", 2 ** 63), ("1e18", 10 ** 18), ("4e18", 4 * 10 ** 18), ("9.3e18", 93 * 10 ** 17),
+          ("10000000000000000000.0", 10 ** 19), ("1.5e19", 15 * 10 ** 18), ("9007199254740992.0", 2 ** 53), ("-4611686018427387904.0", -(2 ** 62)),
+          ("1E2", 100), ("-0.0", 0), ("13835058055282163712.000", 2 ** 63 + 2 ** 62), ("1.0e0", 1)]
+
+
+def run_dspelt(ctx, unit):
+    st = ctx.stats
+    items = [DSPELT[i] for i in unit["items"]]
+    data = "\n".join('{"x":%s,"l":[%s]}' % (t, t) for t, _ in items).encode()
+    args = [["--select", ".x=x", "--select", "(stringify .l)=s", "--select", "(= .x %d)=e" % items[0][1]], [], ["--sort-by", "1", "--select", "(first .l)=x"],
+            ["--select", "(default .nothing .x)=x", "--style", "consise"]][unit["variant"]]
+    o = ctx.drv.run(core.Case(args, data))
+    if o.result != "ok":
+        st.violation("result:" + o.result, "run failed: %s %s" % (o.errtext, o.panicinfo), unit, {"args": args})
+        return
+    st.count("conclusive")
+    rows = [jm.plain(r) for r in jm.read_rows(o.stdout)]
+    if len(rows) != len(items):
+        st.violation("row-count", "%d rows for %d values" % (len(rows), len(items)), unit, {"stdout": o.stdout[:400]})
+        return
+    for (t, want), row in zip(items, rows):
+        got = row.get("x")
+        ok = isinstance(got, int) and not isinstance(got, bool) and got == want
+        if ok and "s" in row:
+            ok = row["s"].replace(" ", "") == "[%d]" % want
+        if ok and "e" in row:
+            ok = row["e"] is (want == items[0][1])
+        if not ok:
+            st.violation("integer-changed:double-spelt", "the integer %d written as %s comes out as %r" % (want, t, row), unit, {"args": args, "row": row})
+            return
+        st.count("double_spelt_integers")
+    st.see("nontrivial", ("dspelt", unit["variant"], tuple(unit["items"])[:2]))
+
+
 def run_unit(ctx, unit):
     st = ctx.stats
+    if unit["kind"] == "dspelt":
+        return run_dspelt(ctx, unit)
     if unit["kind"] == "int":
         name, targs, fexp = TEMPLATES[unit["template"]]
         xs = unit["xs"]
@@ -341,7 +381,9 @@ def worker(ctx):
         if ctx.expired():
             st.count("stopped_by_deadline")
             break
-        unit = gen_int_unit(ctx.rng) if ctx.rng.random() < 0.5 else gen_nas_unit(ctx.rng)
+        r0 = ctx.rng.random()
+        unit = gen_int_unit(ctx.rng) if r0 < 0.48 else gen_nas_unit(ctx.rng) if r0 < 0.96 else \
+            {"kind": "dspelt", "items": [ctx.rng.randrange(len(DSPELT)) for _ in range(ctx.rng.choice((1, 3, 6)))], "variant": ctx.rng.randrange(4)}
         run_unit(ctx, unit)
         st.count("units")
         if i < 2 and ctx.idx == 0:
